@@ -26,7 +26,8 @@ CODES = {
     11: "a freshly selected canary node does not exist, does not match the canary node selector or is not fit for the pod",
     12: "a previously selected node that is still valid was dropped",
     13: "nodes were added beyond the resolved canary replicas",
-    14: "a canary list shorter than the resolved replicas was written instead of an error",
+    14: "a canary list shorter than the resolved replicas was written and the reconcile reported no error",
+    18: "a canary list shorter than the resolved replicas was written although a valid candidate node was left out",
     16: "canary replicas did not resolve but a canary status was written",
     17: "a node with more pod restarts was preferred to a valid candidate with fewer",
     111: "known finding D9: a canary node that vanished or became unfit stays in status.canary.nodes while the count matches",
@@ -38,18 +39,30 @@ GO_TIMEOUT = 1200
 
 
 def generate(rng, tier, stats):
-    n = 260 if tier == "quick" else 4000
+    return gen_cases(rng, stats, 260 if tier == "quick" else 4000)
+
+
+def gen_cases(rng, stats, n, shrink=0.15):
+    """shrink = share of cases in which the previously selected list is longer than the resolved replicas."""
     out = []
     for i in range(n):
         nn = rng.choice([0, 1, 2, 3, 4, 6, 8, 10, 12])
         force = {"scenario": rng.choice(["canary_running", "canary_running", "canary_running", "new_template"]), "n": nn,
                  "no_faults": rng.random() < 0.92, "plain_templates": rng.random() < 0.5,
                  "annotations": {} if rng.random() < 0.8 else {"extendeddaemonset.datadoghq.com/canary-paused": "true"}}
+        shrunk = rng.random() < shrink
+        if shrunk:
+            force["n"] = nn = rng.choice([4, 6, 8, 10])
+            force["canary_k"] = rng.choice([2, 3, 4])
+            force["scenario"] = "canary_running"
         c = worldgen.gen_eds_world(rng, stats, force)
         e = [o for o in c["objects"] if o["kind"] == "ExtendedDaemonSet"][0]
         can = e["spec"]["strategy"].get("canary")
         if can is not None:
             can["replicas"] = rng.choice([0, 1, 1, 2, 3, nn, nn + 1, "1%", "25%", "50%", "100%", "150%", "abc"])
+            if shrunk:
+                can["replicas"] = rng.choice([1, 1, 2, "10%", "25%"])
+                wprop.bump(stats, "previous list longer than replicas", "yes")
             wprop.bump(stats, "replicas", can["replicas"])
             if rng.random() < 0.3:
                 can["nodeSelector"] = rng.choice([{"matchLabels": {"role": "w"}}, {"matchLabels": {"zone": "a"}},
